@@ -85,11 +85,13 @@ class RawVoltageBackend(object):
         self.fch1 = self.antenna_source.fch1
         self.ascending = self.antenna_source.ascending
             
-        self.start_chan = start_chan
-        self.num_chans = num_chans
-        self.block_size = block_size
-        self.blocks_per_file = blocks_per_file
-        self.num_subblocks = num_subblocks
+        # Plain Python integers: numpy fixed-width integers would wrap around (or raise) in the 
+        # block and sample accounting below
+        self.start_chan = int(start_chan)
+        self.num_chans = int(num_chans)
+        self.block_size = int(block_size)
+        self.blocks_per_file = int(blocks_per_file)
+        self.num_subblocks = int(num_subblocks)
         
         self.digitizer = digitizer
         if isinstance(self.digitizer, quantization.RealQuantizer) or isinstance(self.digitizer, quantization.ComplexQuantizer):
@@ -633,7 +635,7 @@ class RawVoltageBackend(object):
                 else:
                     raise ValueError("Value not given for 'num_blocks'.")
             else:
-                self.num_blocks = num_blocks
+                self.num_blocks = int(num_blocks)
         else:
             raise ValueError("Invalid option given for 'length_mode'.")
         
@@ -730,9 +732,10 @@ def get_block_size(num_antennas=1,
     block_size : int
         Block size, in bytes
     """
-    obsnchan = num_chans * num_antennas
-    bytes_per_sample = 2 * num_pols * num_bits // 8
-    T = tchans_per_block * fftlength * int_factor
+    # Python integers, so that numpy fixed-width arguments cannot overflow
+    obsnchan = int(num_chans) * int(num_antennas)
+    bytes_per_sample = 2 * int(num_pols) * int(num_bits) // 8
+    T = int(tchans_per_block) * int(fftlength) * int(int_factor)
     block_size = T * obsnchan * bytes_per_sample
     return block_size
 
@@ -781,6 +784,9 @@ def get_total_obs_num_samples(obs_length=None,
     num_samples : int
         Number of samples
     """
+    # Python integers, so that numpy fixed-width arguments cannot overflow
+    num_antennas, num_chans, block_size = int(num_antennas), int(num_chans), int(block_size)
+    num_pols, num_bits, num_branches = int(num_pols), int(num_bits), int(num_branches)
     tbin = num_branches / sample_rate
     chan_bw = 1 / tbin
     bytes_per_sample = 2 * num_pols * num_bits / 8
@@ -791,7 +797,7 @@ def get_total_obs_num_samples(obs_length=None,
     elif length_mode == 'num_blocks':
         if num_blocks is None:
             raise ValueError("Value not given for 'num_blocks'.")
-        pass
+        num_blocks = int(num_blocks)
     else:
         raise ValueError("Invalid option given for 'length_mode'.")
     return num_blocks * int(block_size / (num_antennas * num_chans * bytes_per_sample)) * num_branches
